@@ -434,6 +434,8 @@ func (r *simReg) manifest(req *http.Request, repo, tag string) (*http.Response, 
 			return r.text(req, 400, regErrJSON("MANIFEST_INVALID", "manifest invalid")), nil
 		}
 		for _, l := range m.Layers {
+			// hex digits of either case denote the same digest (a manifest pulled with a flipped bit may carry upper-case ones)
+			l.Digest = strings.ToLower(l.Digest)
 			b, committed := r.blobs[repo][l.Digest]
 			if committed && sha256Hex(b) == l.Digest {
 				continue
@@ -442,7 +444,20 @@ func (r *simReg) manifest(req *http.Request, repo, tag string) (*http.Response, 
 				continue
 			}
 			if r.pushViol != nil {
-				r.pushViol("push-order:manifest-before-layer", fmt.Sprintf("the manifest PUT for %s arrived at the registry while layer %s (%d bytes) was neither committed there nor reported present", name, l.Digest[:19], l.Size))
+				var have, pres, ups []string
+				for d := range r.blobs[repo] {
+					have = append(have, d[7:15])
+				}
+				for d := range r.present[repo] {
+					pres = append(pres, d[7:15])
+				}
+				for _, u := range r.uploads {
+					ups = append(ups, u.id+"="+u.digest[7:15])
+				}
+				sort.Strings(have)
+				sort.Strings(pres)
+				sort.Strings(ups)
+				r.pushViol("push-order:manifest-before-layer", fmt.Sprintf("the manifest PUT for %s arrived at the registry while layer %s (%d bytes) was neither committed there nor reported present (committed in %s: %v; reported present: %v; uploads open: %v)", name, l.Digest[:19], l.Size, repo, have, pres, ups))
 			}
 			return r.text(req, 400, regErrJSON("MANIFEST_BLOB_UNKNOWN", "blob unknown to registry")), nil
 		}
